@@ -407,12 +407,29 @@ def _pipeline(ck, fx):
     def calls_in(e):
         return [(callee_name(x) or x.get("name"), x) for x, _ in walk(e) if x.get("k") in ("Call", "MethodCall")]
 
-    def uses(e, lid):
-        return any(x.get("k") == "Path" and x["res"].get("k") == "Local" and x["res"]["lid"] == lid for x, _ in walk(e))
-
-    src = lets.get("source")
-    ast = lets.get("ast")
-    prog = lets.get("program")
+    by_lid = {v[0]: (k, v[1]) for k, v in lets.items()}
+    ev0 = [n for n, ps in walk_body(b) if n.get("k") == "Call" and callee_name(n) == A.get("evaluate_mem")]
+    prog = ast = src = None
+    if len(ev0) == 1:
+        l = local_of(ev0[0]["args"][0])
+        if l and l[0] in by_lid:
+            prog = (l[0], by_lid[l[0]][1])
+    if prog:
+        for c, x in calls_in(prog[1]):
+            if c == A.get("compile.pub"):
+                l = local_of(x["args"][0])
+                if l and l[0] in by_lid:
+                    ast = (l[0], by_lid[l[0]][1])
+    if ast:
+        for c, x in calls_in(ast[1]):
+            if (c or "").endswith("TopLevelParser::parse"):
+                a0 = x["args"][0] if x["k"] == "MethodCall" else x["args"][1]
+                e = peel(a0)
+                while e.get("k") in ("AddrOf", "MethodCall", "DropTemps"):
+                    e = peel(e["e"] if e.get("k") in ("AddrOf", "DropTemps") else e["recv"])
+                l = local_of(e)
+                if l and l[0] in by_lid:
+                    src = (l[0], by_lid[l[0]][1])
     def chain_root(e):
         """local at the root of a method chain `&x.m1().m2()` (value derived from x only)"""
         e = peel(e)
@@ -442,12 +459,12 @@ def _pipeline(ck, fx):
     shared.result_discipline(ck, fx, b, "R1.pipeline")
 
 
-COMPOSED = ["C02", "C05", "C07", "C09", "C12", "C13", "C14", "C15"]
+COMPOSED = ["C02", "C05", "C07", "C09", "C10", "C12", "C13", "C14", "C15"]
 
 
 def _compose(ck, fx, cg):
     """C01 = parser shape (C07) ∘ per-construct translation (C02, C12, C13) ∘ VM conformance (C05, C14) ∘
-    built-ins (C09, C15). A violation of any of these structural obligations changes the output of some
+    built-ins (C09, C15) ∘ failure behaviour (C10: output before a fault, clean stop). A violation of any of these structural obligations changes the output of some
     program, i.e. violates C01; each sibling rule set is evaluated here as one composed obligation."""
     import importlib
     from ..core import Check, load_known
